@@ -215,7 +215,7 @@ def gen_smb1(rng, fault=None):
         if fault == 'seclen':
             sl = rng.choice([0, 5000])
         blobn = sl if sl < 2000 else 10
-        p = h + bytes([12, 0xff, 0]) + struct.pack('<HHHHIHIIH', 0, 0xffff, 2, 1, 0, sl, 0, 0x8000c044, blobn + 20) + rng.bytes(blobn) + rng.bytes(rng.below(20))
+        p = h + bytes([12, 0xff, 0]) + struct.pack('<HHHHIHIIH', 0, 0xffff, 2, 1, 0, sl, 0, 0x8000c044, blobn + 20) + rng.bytes(blobn) + rng.bytes(20 if rng.chance(3, 4) else rng.below(20))
     if fault == 'truncated':
         p = p[:rng.below(len(p))]
     return nbt(p)
